@@ -165,3 +165,37 @@ def order_trace(workdir, name, trace_path, check_bound=True, timeout=1200):
         except OSError:
             pass
     return r
+
+
+def validate_records(workdir, name, trace_module, records, constants="", timeout=1500, max_bad=25):
+    """One TLC step per record (trace_module must define TSpec/Progress/Accepted).  Returns
+    (indices of rejected records, total distinct states, errors) -- after a rejection the remainder is
+    validated again so that every failing record is found, not only the first."""
+    import json as _json
+    stage(workdir)
+    mod = "TRR_" + name
+    with open(os.path.join(workdir, mod + ".tla"), "w") as f:
+        f.write("---- MODULE %s ----\nEXTENDS %s\n%s\n====\n" % (mod, trace_module, constants.split("@@")[0] if "@@" in constants else ""))
+    cfg = os.path.join(workdir, mod + ".cfg")
+    with open(cfg, "w") as f:
+        f.write((constants.split("@@")[1] if "@@" in constants else constants) + "\nSPECIFICATION TSpec\nCONSTRAINT Progress\nPOSTCONDITION Accepted\nCHECK_DEADLOCK FALSE\n")
+    bad, states, errors, base, rest = [], 0, [], 0, list(records)
+    while rest:
+        path = os.path.join(workdir, mod + ".ndjson")
+        with open(path, "w") as f:
+            for r in rest:
+                f.write(_json.dumps(r) + "\n")
+        v = run(workdir, mod, cfg, timeout=timeout, env={"TRACE": path}, xmx="3g")
+        states += v["distinct"]
+        if v["ok"]:
+            break
+        rl = v["rejected_line"]
+        if not rl:
+            errors += v["errors"][:2] or ["TLC failed"]
+            break
+        bad.append(base + rl - 1)
+        base += rl
+        rest = rest[rl:]
+        if len(bad) >= max_bad:
+            break
+    return bad, states, errors
